@@ -29,7 +29,14 @@ def dump():
     sers = []
     for n in names:
         t = POOL[n]
-        try: sers.append(f'{n}={hx(t.to_bytes(t.has_segwit))}')
+        try:
+            ser = t.to_bytes(t.has_segwit)
+            # the id is a function of the present state of the object, not of what it was when first asked
+            import hashlib
+            if t.get_txid() != hashlib.sha256(hashlib.sha256(t.to_bytes(False)).digest()).digest()[::-1].hex():
+                sers.append(f'{n}=txid-does-not-match-current-bytes')
+            else:
+                sers.append(f'{n}={hx(ser)}')
         except Exception: sers.append(f'{n}=err')
     paths = []
     for n in names:
@@ -152,12 +159,24 @@ def history(ctx, rng, names_ops):
             yield (line, 'digest-repeat', a)
 
 
+def with_redigests(rng, ops):
+    """after a mutation of a transaction, ask again for the digests that were asked of it before (a value kept from the first
+    call would now be stale)"""
+    last = {}
+    for line, kind, target in ops:
+        yield (line, kind, target)
+        if kind == 'digest': last.setdefault(target, {})[line.split(' ')[0] + line.rsplit(' ', 1)[1]] = line
+        elif kind == 'mut' and target in last:
+            for l in list(last[target].values())[-3:]:
+                if rng.random() < 0.7: yield (l, 'digest', target)
+
+
 def cases(ctx):
     rng = ctx.rng
     for hno in range(ctx.n(40, 1500)):
         reset_case = Case('h_reset', 'm', nontrivial=False, tag='reset', domain=False)
         yield reset_case
-        ops = list(history(ctx, rng, None))
+        ops = list(with_redigests(rng, history(ctx, rng, None)))
         has_copy = any(k in ('copy', 'copyelem') for _, k, _ in ops); has_mut = any(k == 'mut' for _, k, _ in ops)
         prev = {'dump': None, 'ans': None}
         for line, kind, target in ops:
